@@ -54,7 +54,7 @@ def t_slice(size, a, b, c, i):
 def t_slice_let(size, a, b, i):
     return ["circuit", ["let", "la", a], ["let", "lb", b], ["register", "r", size],
             ["map", "s", "r", "la", "lb", None], ["map", "q", "s", i],
-            ["gate", "g1", "q"], ["gate", "h1", AI("s", "la"), "lb"]]
+            ["gate", "g1", "q"], ["gate", "h1", AI("s", "la"), "lb"], ["gate", "g1", AI("s", i)]]
 
 
 @template(size=((2, 4), (2, 5)), a=((0, 2), (0, 3)), c=((1, 2), (1, 3)), i=((0, 2), (0, 3)), j=((-1, 2), (-1, 3)))
@@ -74,8 +74,9 @@ def t_macro_idx(size, i, k):
 @template(size=((2, 3), (2, 4)), i=((0, 2), (-1, 4)), j=((0, 2), (-1, 4)))
 def t_macro_nested(size, i, j):
     return ["circuit", ["register", "r", size],
-            ["macro", "ma", "x", ["sequential_block", ["gate", "g1", "x"]]],
-            ["macro", "mb", "y", "z", ["sequential_block", ["gate", "ma", "y"],
+            ["macro", "mz", ["sequential_block", ["gate", "n0"], ["gate", "n1", 0.25]]],
+            ["macro", "ma", "x", ["sequential_block", ["gate", "g1", "x"], ["gate", "n0"]]],
+            ["macro", "mb", "y", "z", ["sequential_block", ["gate", "ma", "y"], ["gate", "mz"],
                                        ["parallel_block", ["gate", "ma", "z"], ["gate", "n1", 0.5]]]],
             ["loop", 2, ["sequential_block", ["gate", "mb", AI("r", i), AI("r", j)]]],
             ["subcircuit_block", "", ["gate", "mb", AI("r", j), AI("r", i)]]]
@@ -95,7 +96,7 @@ def t_shadow(size, v, i):
             ["gate", "g1", AI("q", "a")], ["gate", "n1", "a"], ["gate", "m", i]]
 
 
-@template(size=((1, 2), (1, 3)), k=((0, 2), (0, 3)), c=((1, 3), (1, 4)), i=((0, 1), (-1, 3)))
+@template(size=((1, 2), (1, 3)), k=((0, 2), (0, 3)), c=((0, 2), (0, 4)), i=((0, 1), (-1, 3)))
 def t_loop_sub(size, k, c, i):
     return ["circuit", ["let", "lk", k], ["let", "lc", c], ["register", "r", size],
             ["loop", "lk", ["sequential_block", ["subcircuit_block", "lc", ["gate", "g1", AI("r", i)]]]],
@@ -131,7 +132,8 @@ def t_macro_sub(size, i, k, c):
     return ["circuit", ["let", "lc", c], ["register", "r", size],
             ["macro", "w", "q", "n", ["sequential_block", ["gate", "g1", "q"], ["loop", "n", ["parallel_block", ["gate", "g1", "q"]]]]],
             ["macro", "u", "q", ["sequential_block", ["subcircuit_block", "lc", ["gate", "w", "q", 1]]]],
-            ["gate", "u", AI("r", i)],
+            ["macro", "v", "q", ["sequential_block", ["loop", 2, ["sequential_block", ["subcircuit_block", "", ["gate", "g1", "q"]]]]]],
+            ["gate", "u", AI("r", i)], ["gate", "v", AI("r", 0)],
             ["subcircuit_block", c, ["gate", "w", AI("r", i), k], ["parallel_block", ["gate", "w", AI("r", 0), k]]],
             ["loop", k, ["sequential_block", ["gate", "w", AI("r", i), "lc"]]]]
 
@@ -139,9 +141,27 @@ def t_macro_sub(size, i, k, c):
 @template(size=((2, 3), (2, 4)), a=((0, 1), (0, 2)), i=((0, 1), (-1, 3)))
 def t_alias_macro(size, a, i):
     """aliases inside macros: alias as argument, alias indexed in the body, single-qubit alias."""
-    return ["circuit", ["let", "la", a], ["register", "r", size], ["map", "s", "r", "la", None, None], ["map", "q0", "s", 0],
+    return ["circuit", ["let", "la", a], ["register", "r", size], ["map", "s", "r", "la", None, None], ["map", "q0", "s", 0], ["map", "w", "s"],
             ["macro", "m", "p", "k", ["sequential_block", ["gate", "g1", "p"], ["gate", "g1", AI("s", "k")], ["gate", "g1", "q0"]]],
-            ["gate", "m", AI("s", i), i], ["gate", "m", "q0", 0], ["gate", "g2", "q0", AI("r", i)]]
+            ["gate", "m", AI("s", i), i], ["gate", "m", "q0", 0], ["gate", "g2", "q0", AI("r", i)], ["gate", "g1", AI("w", i)]]
+
+
+@template(size=((1, 2), (1, 3)), v=((0, 2), (-1, 3)), i=((0, 1), (-1, 3)))
+def t_let_arg(size, v, i):
+    """an integer-declared constant used only as a numeric argument (directly, in a macro body, as a macro argument)"""
+    return ["circuit", ["let", "t", v], ["register", "r", size],
+            ["macro", "m", "a", ["sequential_block", ["gate", "n1", "a"], ["gate", "n1", "t"]]],
+            ["gate", "h1", AI("r", i), "t"], ["gate", "n1", "t"], ["gate", "m", "t"], ["loop", 2, ["sequential_block", ["gate", "m", 1.5]]]]
+
+
+@template(size=((1, 2), (1, 3)), i=((0, 1), (-1, 3)), k=((0, 2), (0, 3)))
+def t_seqfirst(size, i, k):
+    """a plain sequential block as first top-level statement, followed by macro calls"""
+    return ["circuit", ["register", "r", size],
+            ["macro", "m", "q", "n", ["sequential_block", ["gate", "g1", "q"], ["loop", "n", ["sequential_block", ["gate", "n0"]]]]],
+            ["sequential_block", ["gate", "g1", AI("r", i)], ["gate", "n0"]],
+            ["gate", "m", AI("r", i), k],
+            ["parallel_block", ["parallel_block", ["gate", "n0"]], ["gate", "m", AI("r", 0), 1]]]
 
 
 ALL = sorted(T)
